@@ -1352,8 +1352,21 @@ func (t *fnTrans) loopHead(li *loopInfo) {
 	// havoc what the loop body may modify (from the previous pass; fixpoint)
 	mods := t.loopMod[h]
 	all := t.loopModAll[h]
-	for _, name := range sortedKeys(t.vars) {
+	// the allocation counter first: well-formedness of the other havocked values (references, slice
+	// bases) is relative to the NEW counter (earlier iterations may have allocated)
+	names := append([]string{"alloc"}, sortedKeys(t.vars)...)
+	doneAlloc := false
+	for _, name := range names {
+		if name == "alloc" {
+			if doneAlloc {
+				continue
+			}
+			doneAlloc = true
+		}
 		sv := t.vars[name]
+		if sv == nil {
+			continue
+		}
 		if mods[name] || (all && (sv.Heap || sv.Kind == "ghost")) || (all && name == "alloc") {
 			nv := fmt.Sprintf("%s_h%d", name, h)
 			t.declare(nv, sv.Sort)
@@ -1435,6 +1448,9 @@ func (t *fnTrans) setVar(name string, v Term) {
 // havocAll: an opaque call may change every heap location, global and ghost.
 func (t *fnTrans) havocAll(why string) {
 	t.noteWrite("*")
+	na := t.fresh("alloc_hv", "Int")
+	t.assume(fmt.Sprintf("(>= %s %s)", na, t.get(t.cur, "alloc")))
+	t.cur.m["alloc"] = na
 	for _, name := range sortedKeys(t.vars) {
 		sv := t.vars[name]
 		if sv.Heap || sv.Kind == "ghost" {
@@ -1445,9 +1461,6 @@ func (t *fnTrans) havocAll(why string) {
 			}
 		}
 	}
-	na := t.fresh("alloc_hv", "Int")
-	t.assume(fmt.Sprintf("(>= %s %s)", na, t.get(t.cur, "alloc")))
-	t.cur.m["alloc"] = na
 }
 
 func (t *fnTrans) newRef() Term {
